@@ -345,6 +345,9 @@ def gotran_to_myokit(ode: ODE, time_component="engine", time_unit="s") -> myokit
             var.set_unit(to_myokit_unit(state.unit_str))
             global_var_map[sp.Symbol(state.name)] = qsymbol(var.qname())
             global_var_map[state.symbol] = qsymbol(var.qname())
+            # The state derivative can be used in other expressions
+            global_var_map[sp.Symbol(state_derivative.name)] = qsymbol(f"dot({var.qname()})")
+            global_var_map[state_derivative.symbol] = qsymbol(f"dot({var.qname()})")
 
         for parameter in component.parameters:
             var = comp.add_variable(parameter.name)
